@@ -40,6 +40,17 @@ Proof.
   rewrite app_nth2 by (rewrite firstn_length; lia).
   rewrite firstn_length. replace (off - Nat.min off (length c)) with 0 by lia. reflexivity.
 Qed.
+Lemma firstn_splice_in : forall (c : list T) off l n, off + length l <= n -> n <= length c ->
+  firstn n (splice c off l) = splice (firstn n c) off l.
+Proof.
+  intros c off l n Hn Hc. unfold splice.
+  rewrite firstn_app, firstn_length. replace (Nat.min off (length c)) with off by lia.
+  rewrite (firstn_all2 (firstn off c)) by (rewrite firstn_length; lia).
+  rewrite firstn_app. rewrite (firstn_all2 l) by lia.
+  rewrite firstn_firstn. replace (Nat.min off n) with off by lia.
+  rewrite firstn_skipn_comm. replace (off + length l + (n - off - length l)) with n by lia.
+  reflexivity.
+Qed.
 End Splice.
 
 (* ---------- heap ---------- *)
@@ -359,6 +370,26 @@ Proof.
     cbn [blk size cap length]. split.
     + intros sz Hsz Hoff. assert (sz = 0) as -> by lia. rewrite Hc. cbn. auto.
     + intros Hoff. assert (off = 0) as -> by lia. rewrite Hc. cbn. auto.
+Qed.
+
+(* overwriting cells inside the constructed prefix *)
+Lemma owns_write_in : forall h o l off x, hwf h -> owns h o l -> off + length x <= size o ->
+  exists h', wr_range h (blk o) off x = Ok h' /\ hwf h' /\ next h' = next h /\
+             (forall b, blk o <> Some b -> cells_of h' b = cells_of h b) /\
+             owns h' o (splice l off x).
+Proof.
+  intros h o l off x Hw. unfold owns. destruct (blk o) as [b|] eqn:Eb.
+  - intros (c & Hc & Hl & Hs & ->) Hx.
+    destruct (wr_range_ok h b c off x Hc ltac:(lia)) as (h' & Hwr & Hu).
+    exists h'. split; [assumption|]. split; [eapply hupd_hwf; eauto; right; eapply live_lt; eauto|].
+    destruct Hu as (Hb & Ho & Hn). split; [assumption|].
+    split; [intros b' Hb'; apply Ho; congruence|].
+    exists (splice c off x). split; [assumption|].
+    split; [rewrite splice_length; lia|]. split; [lia|].
+    symmetry. apply firstn_splice_in; lia.
+  - intros (Hs & Hc & ->) Hx. assert (x = []) as -> by (destruct x; [reflexivity|cbn in Hx; lia]).
+    exists h. split; [reflexivity|]. split; [assumption|]. split; [reflexivity|]. split; [auto|].
+    rewrite splice_nil. auto.
 Qed.
 
 (* a freshly allocated block, filled from offset 0 *)
